@@ -357,6 +357,56 @@ impl ValT for Align64 {
     }
 }
 
+// ------------------------------------------------------------------ Align128 (128 bytes, align 128: beyond a cache line, the largest alignment the layouts are sampled at)
+#[repr(align(128))]
+pub struct Align128 {
+    pub val: u32,
+    pub serial: u32,
+}
+impl Clone for Align128 {
+    fn clone(&self) -> Align128 {
+        tick(Class::Clone);
+        Align128::make(self.val)
+    }
+}
+impl Drop for Align128 {
+    fn drop(&mut self) {
+        sim().drop_serial(self.serial, VAL_ID);
+        tick(Class::Drop);
+    }
+}
+impl PartialEq for Align128 {
+    fn eq(&self, o: &Align128) -> bool {
+        self.val == o.val && self.val != NAN_VAL
+    }
+}
+impl Default for Align128 {
+    fn default() -> Align128 {
+        <Align128 as ValT>::make(0)
+    }
+}
+impl ValT for Align128 {
+    const NAME: &'static str = "Align128";
+    const HAS_NAN: bool = true;
+    const HAS_SERIAL: bool = true;
+    fn make(v: u32) -> Align128 {
+        let serial = sim().new_serial(VAL_ID);
+        Align128 { val: v, serial }
+    }
+    fn val(&self) -> u32 {
+        self.val
+    }
+    fn set(&mut self, v: u32) {
+        self.val = v;
+    }
+    fn serial(&self) -> u32 {
+        self.serial
+    }
+    fn intact(&self) -> bool {
+        (self as *const Align128 as usize) % 128 == 0 && live(self.serial, VAL_ID)
+    }
+}
+
 // ------------------------------------------------------------------ PodKey / u32: no drop glue at all
 #[derive(Clone, Copy, Debug)]
 pub struct PodKey(pub u32);
@@ -1074,3 +1124,4 @@ serde_val!(Val8);
 serde_val!(P4);
 serde_val!(Big200);
 serde_val!(Align64);
+serde_val!(Align128);
